@@ -246,13 +246,93 @@ def compare(dflt: list[str], nat: list[str], lines_of: Any) -> list[tuple[str, s
             if lt is not None and non_ascii_near(d, lt):
                 sig = f"s2|non-ascii|{comp}"
             else:
-                sig = f"s2|{comp}|{msgkind(d.text)}"
+                sig = f"s2|{comp}|{_position_cause(comp, d, e, lt)}"
             out.append((sig, f"default {d.raw[:160]!r} / native {e.raw[:160]!r}"))
     if not out:
         eq2, _ = same_diagnostics(dflt, nat)
         if not eq2:
             out.append(("s2|order", "same lines, different order across line numbers"))
     return out
+
+
+_KEYWORDS = {"lambda", "not", "await", "yield", "if", "for", "async", "def", "class", "with", "try", "except", "match", "case",
+             "type", "del", "assert", "return", "raise", "import", "from", "while", "global", "nonlocal", "None", "True", "False"}
+
+
+def _token_class(line: bytes, c0: int) -> str:
+    """What starts at 0-based column c0 of the line: name / kw:<keyword> / number / string / the character itself."""
+    rest = line[c0:].decode("utf-8", "replace")
+    m = re.match(r"[A-Za-z_][A-Za-z_0-9]*", rest)
+    if m:
+        w = m.group(0)
+        if re.match(r"(?i)^(r|b|u|f|br|rb|fr|rf)?$", w) is None and w in _KEYWORDS:
+            return f"kw:{w}"
+        if re.match(r"(?i)^(r|b|u|f|br|rb|fr|rf)$", w) and rest[len(w):len(w) + 1] in ("'", '"'):
+            return "string"
+        return "name"
+    if rest[:1].isdigit():
+        return "number"
+    if rest[:1] in ("'", '"'):
+        return "string"
+    return rest[:1] or "<eol>"
+
+
+def _paren_role(line: str, close: int) -> str:
+    """What kind of parenthesis closes at index `close`: 'group' (a parenthesised expression: the opening one follows
+    an operator, a comma, another bracket or nothing), 'call' (the opening one follows a name, a bracket close or a
+    string: an argument list), '?' when it does not open on this line."""
+    depth = 0
+    for j in range(close, -1, -1):
+        ch = line[j]
+        if ch in ")]}":
+            depth += 1
+        elif ch in "([{":
+            depth -= 1
+            if depth == 0:
+                if ch != "(":
+                    return "?"
+                k = j - 1
+                while k >= 0 and line[k] == " ":
+                    k -= 1
+                if k < 0:
+                    return "group"
+                prev = line[k]
+                if prev.isalnum() or prev in "_)]}'\"":
+                    w = re.search(r"[A-Za-z_]+$", line[: k + 1])
+                    if w and w.group(0) in ("in", "not", "and", "or", "is", "if", "else", "return", "yield", "await", "lambda", "assert",
+                                            "del", "raise", "from", "import", "for", "while", "with", "as", "case", "match", "elif", "except", "print"):
+                        return "group"
+                    return "call"
+                return "group"
+    return "?"
+
+
+def _position_cause(comp: str, d: Diag, e: Diag, lt: list[bytes] | None) -> str:
+    """Cause-level identity of a column/end disagreement, read off the SOURCE TEXT where that is conclusive:
+    the characters that lie between the two reported positions when they are few (e.g. one parser counts an
+    enclosing parenthesis or the `{` of an f-string field, the other does not), the kind of token a span-less
+    diagnostic starts at; otherwise the message kind."""
+    if lt is None or d.line is None or not (1 <= d.line <= len(lt)):
+        return msgkind(d.text)
+    if comp in ("end-missing-default", "end-missing-native") and d.col is not None:
+        return "at=" + _token_class(lt[d.line - 1], d.col - 1)
+    if comp == "column" and d.col is not None and e.col is not None:
+        lo, hi = sorted((d.col - 1, e.col - 1))
+        delta = lt[d.line - 1][lo:hi].decode("utf-8", "replace").strip()
+        if 0 < len(delta) <= 2 and not delta.isalnum():
+            return ("default-starts-before:" if d.col < e.col else "native-starts-before:") + delta
+    if comp == "end" and d.el == e.el and d.el is not None and 1 <= d.el <= len(lt) and d.ec is not None and e.ec is not None:
+        lo, hi = sorted((d.ec, e.ec))
+        line = lt[d.el - 1].decode("utf-8", "replace")
+        delta = line[lo:hi].strip()
+        if 0 < len(delta) <= 2 and not delta.isalnum():
+            role = ""
+            if delta == ")":
+                role = "[" + _paren_role(line, line.rfind(")", lo, hi)) + "]"
+                if role == "[?]":
+                    role += "|" + msgkind(d.text)
+            return ("default-ends-after:" if d.ec > e.ec else "native-ends-after:") + delta + role
+    return msgkind(d.text)
 
 
 def _no_span(d: Diag) -> bool:
